@@ -306,6 +306,8 @@ def nontrivial(case):
 
 def tally(rep, case, impl_res, ans):
     rep.count('op:' + case['op'])
+    if case.get('big'):
+        rep.count('one_request_for_more_than_10000_stored_spikes')
     if case['op'] == 'from_sparse':
         rep.count('trailing:%d' % case['trailing'])
         rep.count('cdtype:' + case.get('cdtype', 'int64'))
@@ -466,6 +468,23 @@ def gen(tier, rng):
                    chans=rng.sample(range(nc), rng.randrange(1, nc + 1)), chkind=rng.pick(['list', 'array', 'uint32', 'int32', 'uint64']),
                    sidkind=rng.pick(['int64', 'int64', 'list', 'uint64', 'int32', 'uint32']))
         yield dict(p=PID, op='tfeatures', spec=spec, spike_ids=rng.sample(keep2, rng.randrange(1, min(len(keep2), 6) + 1)))
+    # one request for MORE THAN 10000 stored spikes (the size at which loaders switch to batched reads), on a store that
+    # holds a subset of the spikes, with unstored spikes in between and in arbitrary order
+    for i in range(1 if q else 4):
+        spec = D.random_spec(rng, raw=False, feats=False, tfeats=False, ns=rng.randrange(3, 8))
+        nt, nc = len(spec['templates']), spec['n_channels']
+        N = 30000
+        spec['pad_spikes'] = N
+        npcs, nloc = 2, 2
+        keep = sorted(rng.sample(range(N), 12000 + 500 * i))
+        spec['pc_feature_spike_ids'] = keep
+        spec['pc_features'] = [[[float((r * nloc + kk + 1) * SCALE + p) for kk in range(nloc)] for p in range(npcs)] for r in range(len(keep))]
+        spec['pc_feature_ind'] = [rng.sample(range(nc), nloc) for _ in range(nt)]
+        ks = set(keep)
+        sids = rng.sample(keep, 10500 + 300 * i) + rng.sample([x for x in range(N) if x not in ks], 2000)
+        rng.shuffle(sids)
+        yield dict(p=PID, op='features', spec=spec, spike_ids=sids, npcs_pow2=True, chans=rng.sample(range(nc), 2),
+                   chkind='array', sidkind='int64', big=True)
     # PCA route
     for i in range(15 if q else 200):
         spec = D.random_spec(rng, raw=True, feats=False, tfeats=False, ns=rng.randrange(6, 14), nsw=rng.randrange(3, 6))
